@@ -212,6 +212,15 @@ func C11(r *ev.Report) {
 func init() {
 	Parts["C11"] = Part{"C11", C11}
 	Replayers["C11"] = func(c Case) (bool, string) {
+		switch c["op"] {
+		case "bin", "equals", "unary", "predicate", "neighbour", "sqrt", "parse", "wide", "Add", "Subtract", "Multiply", "Square", "Invert", "Pow", "SetUInt64", "persist":
+			if c["op"] != "wide" || len(c["msg"]) == 0 {
+				if f, ok := Replayers["C12"]; ok && c["op"] != "hash" {
+					return f(c)
+				}
+			}
+		}
+
 		var key, detail string
 
 		if c["op"] == "iso" {
